@@ -42,6 +42,11 @@ ExpectedCollision(a, b) == GoWords(a) = GoWords(b)
 Positions == {"opid", "path", "def"}
 SepOKAt(pos, n) == (pos = "path" /\ n.two) => n.sep \in {"-", "_", "."}
 
+\* path SHAPES: pairs (or triples) of operations whose paths / methods are structurally related - the
+\* root path, a static segment next to a path parameter, a path that is a prefix of another, the same
+\* path under two methods, a base path.  Each operation must be routed to its own handler.
+Shapes == {"root", "param_vs_static", "prefix", "methods", "basepath", "root_and_param"}
+
 \* ---- life cycle ---------------------------------------------------------------------------
 VARIABLES phase, nops, ndefs, routes
 lvars == <<phase, nops, ndefs, routes>>
